@@ -13,15 +13,16 @@ import (
 func releaseAllocatedIPs(ippool *IPPool, session *PFCPSession) error {
 	logger.PfcpLog.Infoln("release allocated IP")
 
-	// Check if we allocated an UE IP for this session and delete it.
-	for _, pdr := range session.pdrs {
-		if (pdr.allocIPFlag) && (pdr.srcIface == core) {
-			ueIP := int2ip(pdr.ueAddress)
-			logger.PfcpLog.Debugf("Releasing IP %s of session %d", ueIP.String(), session.localSEID)
-			return ippool.DeallocIP(session.localSEID)
-		}
+	// The pool keeps the address under the session's SEID. Looking for the downlink PDR
+	// that asked for it missed the address whenever that PDR had been removed from the
+	// session meanwhile (or had been an uplink PDR): it was never given back.
+	if !ippool.Holds(session.localSEID) {
+		return nil
 	}
-	return nil
+
+	logger.PfcpLog.Debugf("Releasing IP of session %d", session.localSEID)
+
+	return ippool.DeallocIP(session.localSEID)
 }
 
 func addPdrInfo(msg *message.SessionEstablishmentResponse, pdrs []pdr) {
